@@ -7,6 +7,7 @@
 //
 // case line:   p=<0|1>,n=<threads>,seed=<N|->,sch=<c.c.c>|<tid>:<op>;<tid>:<op>;...
 //    op: lr lrt lrd (LockReadOnly never/try/timed)  lw lwt lwd (LockReadWrite)  ur uw (unlocks)
+//    pm=1 (optional): also take decisions at the WaitCondition pool's mutex; prints `k PM` instead of a trace (oracles only)
 //    sch: explicit decisions ("2" run thread 2, "2!" fire thread 2's timeout), entries that are not enabled are skipped;
 //    beyond them: seed=N random policy, seed=- non-preemptive policy.
 // modes:  (default) cases on stdin -> traces;   --explore <max_preemptions> <max_runs>: for each stdin case print every
@@ -36,7 +37,7 @@ enum { D_NEVER = 0, D_TRY, D_TIMED };
 struct Op { int kind; int d; };
 
 struct Case {
-   bool pref; int n; bool haveSeed; uint64_t seed; std::vector<Choice> sched;
+   bool pref; int n; bool haveSeed; uint64_t seed; std::vector<Choice> sched; bool poolRace;
    std::vector<std::vector<Op> > prog;
    std::string head, body;
 };
@@ -54,13 +55,14 @@ static bool parse_case(const std::string & line, Case & c)
    const size_t bar = line.find('|');
    if (bar == std::string::npos) return false;
    c.head = line.substr(0, bar); c.body = line.substr(bar+1);
-   c.pref = true; c.n = 0; c.haveSeed = false; c.seed = 0; c.sched.clear();
+   c.pref = true; c.n = 0; c.haveSeed = false; c.seed = 0; c.sched.clear(); c.poolRace = false;
    std::vector<std::string> hs = split(c.head, ',');
    for (size_t i=0; i<hs.size(); i++)
    {
       const std::string & h = hs[i];
       if (h.compare(0, 2, "p=") == 0) c.pref = (h[2] == '1');
       else if (h.compare(0, 2, "n=") == 0) c.n = atoi(h.c_str()+2);
+      else if (h.compare(0, 3, "pm=") == 0) c.poolRace = (h[3] == '1');
       else if (h.compare(0, 5, "seed=") == 0) {if (h[5] != '-') {c.haveSeed = true; c.seed = strtoull(h.c_str()+5, NULL, 10);}}
       else if (h.compare(0, 4, "sch=") == 0)
       {
@@ -293,10 +295,15 @@ static Options base_options(const Case & c, ReaderWriterMutex ** rwp)
    o.tolerant_schedule = true;
    o.max_decisions = 4000;
    o.timeout_weight_percent = 15;
-   o.policy_fn = [rwp](int kind, const void * obj) -> int {
+   const bool poolRace = c.poolRace;
+   o.policy_fn = [rwp, poolRace](int kind, const void * obj) -> int {
       switch(kind)
       {
-         case K_MUTEX_LOCK:   return (obj == (const void *) &(*rwp)->_stateMutex) ? (F_LOG|F_DECIDE) : 0;
+         case K_MUTEX_LOCK:
+            if (obj == (const void *) &(*rwp)->_stateMutex) return F_LOG|F_DECIDE;
+            // pm=1: the pool's own mutex is a decision point too, so the release of a recycled WaitCondition (end of a call, outside
+            // _stateMutex) interleaves with the ObtainObject() calls of other threads; such runs are judged by the oracles only
+            return (poolRace && obj == (const void *) &(*rwp)->_waitConditionPool._mutex) ? F_DECIDE : 0;
          case K_MUTEX_UNLOCK: return (obj == (const void *) &(*rwp)->_stateMutex) ? F_LOG : 0;
          case K_WC_WAIT: case K_WC_TIMEDWAIT: return F_LOG|F_DECIDE;
          case K_WC_NOTIFY: return F_LOG;
@@ -359,7 +366,7 @@ static void run_case(long k, const Case & c)
    setup_run(*r, c, *s);
    const Result res = s->Run();
    judge_end(*r, res);
-   printf("%ld %s\n", k, format_trace(res).c_str());
+   if (c.poolRace) printf("%ld PM\n", k); else printf("%ld %s\n", k, format_trace(res).c_str());
    for (size_t i=0; i<r->oracle.size(); i++) printf("%ld ORACLE FAIL %s\n", k, r->oracle[i].c_str());
    fflush(stdout);
    if (res.status == Result::COMPLETED) {delete r->rw; delete s; delete r;}   // otherwise abandoned threads still use them: leak
